@@ -35,7 +35,7 @@
 From Coq Require Import List NArith ZArith Bool.
 Import ListNotations.
 Require Import XV.Str XV.Json XV.TextFormat XV.Forest XV.Matcher XV.Differ XV.Spec XV.Path XV.WF XV.PathProofs XV.Render
-               XV.XmlFmt XV.Projections XV.XmlFmtProofs3 XV.XmlFmtProofs4 XV.XmlFmtProofs5 XV.XmlFmtProofs9 XV.XmlFmtProofsA.
+               XV.XmlFmt XV.Projections XV.XmlFmtProofs3 XV.XmlFmtProofs4 XV.XmlFmtProofs5 XV.XmlFmtProofs9 XV.XmlFmtProofsA XV.XmlFmtProofsD.
 Require XV.Placeholder XV.PlaceholderUndo XV.DMP.
 Local Open Scope N_scope.
 
@@ -53,6 +53,26 @@ Theorem C09_accept_partial :
   xequiv (ws_text c) (accept T) (remove_comments (doc_tree fT root)).
 Proof. intros c o rootns pe root L script gs fT T _. exact (accept_format c o rootns pe root L script gs fT T). Qed.
 Print Assumptions C09_accept_partial.
+
+(* The same for the differ's OWN script (XV.Differ.gen_script, the model of Differ.diff, for EVERY valid matching --
+   whatever the matcher options), composed with DifferSound.gen_script_replay (C01): accepting every marked change
+   gives the RIGHT document (as prepare() leaves it: comments removed). *)
+Theorem C09_accept_differ_partial :
+  forall (c : cfg) (o : oracle) (rootns : list (option str * str)) (pe : penv)
+         (L R : forest) (rootL rootR : id) (m : list (id * id)) (gs : list gaction) (T : xtree),
+  c_tt c = [] -> c_replace c = false ->
+  wf_forest L rootL -> wf_forest R rootR -> valid_matching L R rootL rootR m ->
+  (forall x, desc L rootL x -> is_comment (ltag (flab L x)) = false) ->
+  let s := gen_script [] R rootR L rootL m in
+  let W := remove_comments (doc_tree L rootL) in
+  PlaceholderUndo.npua W = true -> clean_tags W -> nodiff W ->
+  render_script pe rootL L (out s) = Some gs ->
+  fscript_ok rootns pe rootL [(Some DIFF_PREFIX, DIFF_NS)] L (out s) -> Forall names_plain (out s) ->
+  run_ok c o rootns (FS W Placeholder.ph_init [(Some DIFF_PREFIX, DIFF_NS)]) gs ->
+  xml_format c o rootns Placeholder.ph_init gs W = FOk T ->
+  xequiv (ws_text c) (accept T) (remove_comments (doc_tree R rootR)).
+Proof. intros c o rootns pe L R rootL rootR m gs T _. exact (accept_differ c o rootns pe L R rootL rootR m gs T). Qed.
+Print Assumptions C09_accept_differ_partial.
 
 (* without text tags prepare() only removes the comments and leaves the maker as created: the state and the
    tree xml_format is started with above are the ones main.diff_trees hands to format() *)
